@@ -254,7 +254,7 @@ pub fn gen(c: &Chain, cfg: &Cfg, m: &Menu, rng: &mut Rng, kind: &str) -> Option<
                 json!({"k": "instantiate", "c": "hub", "sender": *rng.pick(&["owner", "owner2"]), "epoch": 1 + rng.below(4), "unbonding": 3 + rng.below(4),
                        "fee": *rng.pick(&DECS), "thr": *rng.pick(&DECS)})
             } else {
-                json!({"k": "instantiate", "c": "dispatcher", "sender": *rng.pick(&["owner", "owner2"]), "rate": *rng.pick(&DECS)})
+                json!({"k": "instantiate", "c": "dispatcher", "sender": *rng.pick(&["owner", "owner2"]), "rate": *rng.pick(&DECS), "stdenom": *rng.pick(&["usei", "usei", ""])})
             }
         }
         "auth" => return Some(crate::auth::random_call(c, cfg, rng)),
